@@ -1,5 +1,8 @@
 """Which rules decide which property, and the runner groups that produce the rule results."""
 from . import rules_struct, rules_plan, rules_loop, rules_api, rules_mor, rules_rt, rules_cc, rules_x, rules_flat, rules_template
+import os
+
+from .core import RuleResult
 from .mir import Facts
 
 # ---------------------------------------------------------------------------
@@ -26,9 +29,12 @@ def g_flat(ctx):
     setname = "enum" if ctx.tier == "thorough" else "enumq%d" % ctx.seed
 
     def f(p):
+        # enumerated batches, and corpus files that come with a sidecar of expected flat rules
         side = p.job["src"][:-4] + ".json"
+        if not os.path.exists(side):
+            return [RuleResult("T-FLAT")]
         return [rules_flat.rule_flat(p.model, list(p.model.rule_mods.values()), side)]
-    return ctx.per_model(["T-FLAT"], f, sets=(setname,))
+    return ctx.per_model(["T-FLAT"], f, sets=(setname, "corpus"))
 
 
 def g_template(ctx):
